@@ -537,7 +537,7 @@ type Cluster struct {
 	genOpen  bool // false: the next Deploy starts a new generation
 	hold     bool
 	parked   []*Ack
-	started  map[uint64]bool
+	started  map[string]bool
 	closed   bool
 }
 
@@ -564,7 +564,7 @@ func New(opts Options) (*Cluster, error) {
 		t = *opts.DKV
 	}
 	verifhook.SetTuning("dkv", t)
-	c := &Cluster{opts: opts, log: &logBox{changed: make(chan struct{})}, byOpID: map[string]*worker{}, bySrID: map[string]*worker{}, started: map[uint64]bool{}}
+	c := &Cluster{opts: opts, log: &logBox{changed: make(chan struct{})}, byOpID: map[string]*worker{}, bySrID: map[string]*worker{}, started: map[string]bool{}}
 	if err := os.MkdirAll(filepath.Join(opts.Dir, "work"), 0o755); err != nil {
 		return nil, err
 	}
@@ -602,9 +602,22 @@ func (c *Cluster) newJob(workers int) error {
 		}
 	})
 	errc := make(chan error, 64)
-	store := &recordingStore{StorageLocation: locations.NewLocalDirectory(c.JobStoreDir()), c: c}
+	c.mu.Lock()
+	nextSeq := c.jobSeq + 1
+	c.mu.Unlock()
+	store := &recordingStore{StorageLocation: locations.NewLocalDirectory(c.JobStoreDir()), c: c, seq: nextSeq}
 	cfg := &config.Config{WorkerCount: workers, KeyGroupCount: c.opts.KeyGroups, WorkingStorageLocation: c.WorkDir(),
 		Sources: []connectors.SourceConfig{&scriptedSource{c: c}}}
+	if os.Getenv("VERIF_DEBUG") != "" {
+		var files []string
+		filepath.WalkDir(c.JobStoreDir(), func(p string, d os.DirEntry, err error) error {
+			if err == nil && !d.IsDir() {
+				files = append(files, filepath.Base(p))
+			}
+			return nil
+		})
+		fmt.Fprintf(os.Stderr, "newJob seq=%d gen=%d files=%v\n", c.jobSeq+1, c.gen.Load(), files)
+	}
 	var job *jobs.Job
 	err := c.guard("jobs.New", func() error {
 		var e error
@@ -639,13 +652,20 @@ func (c *Cluster) curJob() *jobs.Job {
 // recordingStore notes every job checkpoint file written (= published).
 type recordingStore struct {
 	locations.StorageLocation
-	c *Cluster
+	c   *Cluster
+	seq int // the job this store belongs to: a crashed job writes nothing any more
 }
 
 func (s *recordingStore) Write(path string, data io.Reader) (string, error) {
 	b, err := io.ReadAll(data)
 	if err != nil {
 		return "", err
+	}
+	s.c.mu.Lock()
+	alive := s.c.job != nil && s.c.jobSeq == s.seq
+	s.c.mu.Unlock()
+	if !alive {
+		return "", errNoJob
 	}
 	var pub *Published
 	if strings.HasSuffix(path, ".snapshot") {
@@ -835,17 +855,18 @@ func (c *Cluster) Deregister(idx int) {
 
 // RestartJob crashes the job and all workers and creates a new job over the same store with the given worker count.
 func (c *Cluster) RestartJob(workers int) error {
-	c.KillAll()
 	c.mu.Lock()
-	c.job = nil
-	for _, a := range c.parked {
+	c.job = nil // the job dies first: nothing reaches it any more and it writes nothing any more
+	parked := c.parked
+	c.parked = nil
+	c.mu.Unlock()
+	for _, a := range parked {
 		select {
 		case a.release <- false:
 		default:
 		}
 	}
-	c.parked = nil
-	c.mu.Unlock()
+	c.KillAll()
 	return c.newJob(workers)
 }
 
@@ -1309,8 +1330,9 @@ func (a *srAdapter) AssignSplits(ctx context.Context, splits []*workerpb.SourceS
 func (a *srAdapter) StartCheckpoint(ctx context.Context, id uint64) error {
 	return a.call("SourceRunner.HandleStartCheckpoint", func(w *worker) error {
 		a.c.mu.Lock()
-		fresh := !a.c.started[id]
-		a.c.started[id] = true
+		key := fmt.Sprintf("%d:%d", a.c.jobSeq, id) // ids restart when a new job finds no checkpoint
+		fresh := !a.c.started[key]
+		a.c.started[key] = true
 		a.c.mu.Unlock()
 		if fresh {
 			a.c.log.add(func(l *Log) { l.Started = append(l.Started, id) })
